@@ -444,10 +444,11 @@ constraints, a model cached): the answer comes from the cache and is what the sp
 theorem mc_batchEval_fast {sup : Ops} {s : St} (hP : PickValid E) (h : MCInv RE E U s.fe) (asts : List Exp)
     (hre : ∀ e ∈ asts, RE e) (n : Nat) (extra : List Con) (hfast : BatchFast E s.fe asts n extra) :
     ∃ ts, modelCacheBatchEval E sup asts n extra s = (.ok ts, { s with tick := s.tick + 1 }) ∧
-      TuplesOk (U ++ extra) asts n ts ∧ (∀ t ∈ ts, t ∈ allBatchSolutions E s.fe asts extra true) := by
+      TuplesOk (U ++ extra) asts n ts ∧ (∀ t ∈ ts, t ∈ allBatchSolutions E s.fe asts extra true) ∧
+      ts.length = min n (allBatchSolutions E s.fe asts extra true).length := by
   obtain ⟨chosen, hrun, hsub, hlen, hnd, hall⟩ := getBatchSolutions_spec hP asts n extra s
   have hfeas : ∀ t ∈ chosen, FeasibleT (U ++ extra) asts t := fun t ht => cachedT_feasible h asts extra t (hsub t ht)
-  refine ⟨chosen, ?_, ⟨hfeas, hnd, by omega, ?_⟩, hsub⟩
+  refine ⟨chosen, ?_, ⟨hfeas, hnd, by omega, ?_⟩, hsub, hlen⟩
   · unfold modelCacheBatchEval
     simp only [bind, M.bind, hrun, M.getFe_apply]
     by_cases hn : chosen.length = n
@@ -485,7 +486,7 @@ theorem mc_eval_fast {self sup : Ops} {s : St} (hP : PickValid E) (h : MCInv RE 
     (hc : e.conc = none) (n : Nat) (extra : List Con) (hfast : BatchFast E s.fe [e] n extra) :
     ∃ vs, (modelCacheLayer E self sup).eval e n extra s = (.ok vs, { s with tick := s.tick + 1 }) ∧
       Judge U (.eval e n extra) (.vals vs) := by
-  obtain ⟨ts, hrun, hok, _⟩ := mc_batchEval_fast (sup := sup) hP h [e] (by simpa using he) n extra hfast
+  obtain ⟨ts, hrun, hok, _, _⟩ := mc_batchEval_fast (sup := sup) hP h [e] (by simpa using he) n extra hfast
   refine ⟨ts.map fun t => t.headD 0, ?_, ?_⟩
   · show (do let rs ← modelCacheBatchEval E sup [e] n extra; pure (rs.map fun t => t.headD 0) : M (List Nat)) s = _
     simp only [bind, M.bind, hrun, pure, M.pure]
